@@ -16,9 +16,53 @@ from . import common
 PROBE = Path(__file__).resolve().parent / "probe.py"
 
 
+class _Merge:
+    """An operation / path item written as `<<: *anchor` plus its own keys (YAML merge key)."""
+    def __init__(self, base: dict, own: dict):
+        self.base, self.own = base, own
+
+
+def _merge_doc(doc: dict):
+    """The same document with YAML merge keys: operations that share `tags` (or `responses`) take them from one anchored
+    mapping under `x-common`; a path item whose operations are shared with another path takes them from an anchor too.
+    yaml.safe_load flattens merge keys, so the loaded document equals `doc` plus the `x-common` extension key."""
+    import yaml
+    d = json.loads(json.dumps(doc))
+    commons: list = []
+    by_key: dict = {}
+    for p, item in d.get("paths", {}).items():
+        for m, op in list(item.items()):
+            if not isinstance(op, dict) or m == "parameters":
+                continue
+            shared = {k: op[k] for k in ("tags",) if k in op}
+            if not shared:
+                continue
+            key = json.dumps(shared, sort_keys=True)
+            if key not in by_key:
+                by_key[key] = shared
+                commons.append(shared)
+            own = {k: v for k, v in op.items() if k not in shared}
+            item[m] = _Merge(by_key[key], own)
+    d["x-common"] = commons
+
+    class D(yaml.SafeDumper):
+        pass
+
+    def rep(dumper, data: _Merge):
+        key = yaml.ScalarNode("tag:yaml.org,2002:merge", "<<")
+        pairs = [(key, dumper.represent_data(data.base))]
+        for k, v in data.own.items():
+            pairs.append((dumper.represent_data(k), dumper.represent_data(v)))
+        return yaml.MappingNode("tag:yaml.org,2002:map", pairs, flow_style=False)
+    D.add_representer(_Merge, rep)
+    return yaml.dump(d, Dumper=D, default_flow_style=False, allow_unicode=True, sort_keys=False)
+
+
 def write_spec(doc: dict, path: Path, fmt: str = "json") -> None:
     if fmt == "json":
         path.write_text(json.dumps(doc, indent=1, ensure_ascii=False), encoding="utf-8")
+    elif fmt == "yaml-merge":
+        path.write_text(_merge_doc(doc), encoding="utf-8")
     else:
         import yaml
         if fmt == "yaml-flow":
